@@ -333,6 +333,60 @@ fn so3_stream_audit(bounds: ([f64; 4], f64), seeds: u64, per_seed: usize, rep: &
     }
 }
 
+/// Stream audit for R^n of higher dimension than the exhaustive lattice can enumerate (n = 10, 12):
+/// real `StdRng` streams over a seed lattice; every marginal CDF at 9 edges within 6 sigma, and every
+/// PAIR of coordinates uncorrelated within 6 / sqrt(N) (coordinates that share a variate - a block
+/// buffer that is not refilled, a stride bug - have correlation 1).
+fn rv_stream_audit(dim: usize, seeds: u64, per_seed: usize, rep: &mut Report) {
+    use rand::SeedableRng;
+    let bounds: Vec<(f64, f64)> = (0..dim).map(|i| (-(i as f64) - 1.0, 2.0 * i as f64 + 0.5)).collect();
+    let spec = Spec::Rv { dim, bounds: Some(bounds.clone()), frac: None };
+    let rows: Vec<Vec<Vec<f64>>> = (0..seeds)
+        .into_par_iter()
+        .map(|seed| {
+            let sp = Rv::build(&spec);
+            let mut rng = rand::rngs::StdRng::seed_from_u64(seed);
+            (0..per_seed).filter_map(|_| sp.sample_uniform(&mut rng).ok()).map(|s| s.values.iter().zip(&bounds).map(|(x, (l, u))| (x - l) / (u - l)).collect::<Vec<f64>>()).collect()
+        })
+        .collect();
+    let xs: Vec<Vec<f64>> = rows.into_iter().flatten().collect();
+    let n = xs.len() as f64;
+    rep.count("rv_stream_audits", 1);
+    rep.count("evaluations", xs.len() as u64);
+    let det = |extra: Value| json!({"space": spec.json(), "seeds": seeds, "samples_per_seed": per_seed, "more": extra});
+    if xs.len() != (seeds as usize) * per_seed || xs.iter().any(|x| x.len() != dim || x.iter().any(|u| !(*u >= 0.0 && *u < 1.0))) {
+        viol(rep, "RealVector|stream-audit|sample-outside-region", "a streamed sample is missing, of the wrong dimension or outside [lower, upper)".into(), det(json!({})));
+        return;
+    }
+    for i in 0..dim {
+        for e in 1..10 {
+            let edge = e as f64 / 10.0;
+            let emp = xs.iter().filter(|x| x[i] <= edge).count() as f64 / n;
+            let sigma = (edge * (1.0 - edge) / n).sqrt();
+            if (emp - edge).abs() > 6.0 * sigma {
+                viol(rep, "RealVector|stream-audit|marginal-cdf", format!("R^{dim}: coordinate {i}: empirical CDF {emp:.5} at {edge}, more than 6 sigma from the uniform law"), det(json!({"coordinate": i})));
+                return;
+            }
+        }
+    }
+    let mean: Vec<f64> = (0..dim).map(|i| xs.iter().map(|x| x[i]).sum::<f64>() / n).collect();
+    let var: Vec<f64> = (0..dim).map(|i| xs.iter().map(|x| (x[i] - mean[i]).powi(2)).sum::<f64>() / n).collect();
+    let mut worst = 0.0f64;
+    for i in 0..dim {
+        for j in (i + 1)..dim {
+            let cov = xs.iter().map(|x| (x[i] - mean[i]) * (x[j] - mean[j])).sum::<f64>() / n;
+            let corr = cov / (var[i] * var[j]).sqrt();
+            worst = worst.max(corr.abs() * n.sqrt());
+            rep.count("rv_stream_pairs_checked", 1);
+            if corr.abs() > 6.0 / n.sqrt() {
+                viol(rep, "RealVector|stream-audit|coordinates-not-independent", format!("R^{dim}: coordinates {i} and {j} have correlation {corr:.4} over {} samples (independent coordinates stay within {:.4})", xs.len(), 6.0 / n.sqrt()), det(json!({"coordinates": [i, j]})));
+                return;
+            }
+        }
+    }
+    rep.max("max_rv_stream_correlation_in_sigma_x100", (worst * 100.0) as u64);
+}
+
 fn se3_check(k1: usize, k2: usize, rep: &mut Report) {
     let spec = Spec::Se3 { weight: 0.5, bounds: Some(vec![(0.0, 4.0), (-1.0, 1.0), (2.0, 3.0)]) };
     let sp = Se3::build(&spec);
@@ -461,6 +515,12 @@ pub fn run(tier: &'static str) -> i32 {
     for b in [([0.0, 0.0, 0.0, 1.0], 0.5), (rx, 0.4), ([0.0, 0.0, 0.0, 1.0], 1.0), (rx, 2.0)] {
         so3_stream_audit(b, seeds, per, &mut rep);
     }
+    // a mid-width cone with a million draws: the Haar law and the "uniform rotation vector" law
+    // (theta/a)^3 differ by only 0.0093 a^2 in CDF there
+    so3_stream_audit(([0.0, 0.0, 0.0, 1.0], 0.95), if thorough { 1024 } else { 256 }, 4000, &mut rep);
+    for dim in [10usize, 12] {
+        rv_stream_audit(dim, seeds, if thorough { 2000 } else { 800 }, &mut rep);
+    }
     let meta = CheckMeta {
         prop: "C14",
         tier,
@@ -473,7 +533,7 @@ pub fn run(tier: &'static str) -> i32 {
             "rand 0.9 maps a word w to the unit value (w >> 12) * 2^-52 (the exact-count results confirm it)".into(),
             "SO(3) quadrature tolerances calibrated at design time: correct sampler 0.0086 (K=32), 0.0016 (K=64); cube-normalisation without ball rejection 0.077".into(),
         ],
-        must_be_positive: vec!["product_lattices", "marginal_bins_checked", "pair_bins_checked", "so3_lattices", "so3_first_attempt_accepted", "octant_checks", "se3_lattices", "edited_bounds_lattices", "so3_stream_audits"],
+        must_be_positive: vec!["product_lattices", "marginal_bins_checked", "pair_bins_checked", "so3_lattices", "so3_first_attempt_accepted", "octant_checks", "se3_lattices", "edited_bounds_lattices", "so3_stream_audits", "rv_stream_audits", "rv_stream_pairs_checked"],
     };
     finish(&meta, rep, t0)
 }
